@@ -689,7 +689,7 @@ def choose_constants(tier, rng):
                     BFieldOn=['rect', 'tri', 'box', 'tet'], RefineOnB=['tet'], ProdGeomIds=[rng.choice([12, 14]), sepgeom], ProdFieldIds=sorted(fields))
     return dict(MeshNames=['line', 'rect', 'tri', 'prod', 'box', 'tet', 'prod3', 'prodm'], RefineOn=['line', 'rect', 'tri', 'tet', 'box'], MaxLevel=1, Refine2On=['line'],
                 GeomIds=list(range(1, NGEOMS + 1)), FieldIds=list(range(1, NFIELDS + 1)), Lattice=2, Lattice3=2, IntegrateOn=['line', 'rect', 'tri', 'box', 'tet', 'prod'],
-                BFieldOn=['rect', 'tri', 'box', 'tet'], RefineOnB=[], ProdGeomIds=[12, 14, 15, 22, 23], ProdFieldIds=[11, 13, 14])
+                BFieldOn=['rect', 'tri', 'box', 'tet'], RefineOnB=[], ProdGeomIds=[12, 14, 22, 23], ProdFieldIds=[11, 13])
 
 
 def _groups(meshes, quick):
@@ -809,7 +809,7 @@ def run(rep):
     items = [(k[0], k[1], k[3], sorted(v, key=lambda s: s['field'])) for k, v in sorted(groups.items())]
     # heavy groups first
     items.sort(key=lambda it: -sum(len(s['rows']) for s in it[3]) * (MESH_DIM[it[0]] ** 2))
-    outs = exprs.pmap(replay_group, items, nproc=6 if quick else 12, chunksize=1)
+    outs = exprs.pmap(replay_group, items, nproc=8 if quick else 12, chunksize=1)
     rep.lap('replayed')
     for it, o in zip(items, outs):
         if 'harness_error' in o:
